@@ -360,13 +360,14 @@ def _loud_rules(ctx: Ctx, rs: RuleSet):
   # proxy, registered constant): every test of those is false - the only way
   # on is a raise of UnserializableValueError
   from fdlstatic import dispatch
+  leaf_q = ctx.func(f'{SER}._is_leaf_type').qualname  # wherever it lives
 
   def _ev(t):
     nt = roles.is_none_test(t, trav)
     if nt is not None:
       return nt  # `traverser is None` holds
-    if isinstance(t, ast.Call) and unparse(t.func) in (
-        'isinstance', '_is_leaf_type'):
+    if isinstance(t, ast.Call) and (unparse(t.func) == 'isinstance' or
+                                    ctx.p.resolve(t.func, f) == leaf_q):
       return False
     if isinstance(t, ast.Compare) and isinstance(t.ops[0], ast.In) and (
         '_serialization_constants' in unparse(t.comparators[0])):
@@ -520,7 +521,7 @@ def _shape_rules(ctx: Ctx, rs: RuleSet):
   def is_metadata(e):
     e = roles.deref(d, e)
     return roles.call_of('_deserialize')(e) and bool(e.args) and (
-        '_METADATA_KEY' in unparse(e.args[0]))
+        'METADATA_KEY' in unparse(e.args[0]))
 
   ok = any(isinstance(n, ast.Return) and isinstance(n.value, ast.Call) and
            unparse(n.value.func).endswith('unflatten') and
